@@ -43,6 +43,8 @@ class Env(object):
         self.polls  = 0
         self.flags  = []
         self.procs  = {}
+        self.sched  = None      # Coop scheduler (current thread name)
+        self.poll_log = []      # (thread, pid, exited_before_this_poll)
 
 
 class FakeProc(object):
@@ -57,6 +59,8 @@ class FakeProc(object):
         if not self.exited and self.env.exit_before_poll \
            and self.env.polls >= self.env.exit_before_poll:
             self.exited, self.code = True, self.env.exit_code
+        self.env.poll_log.append((getattr(self.env.sched, 'current', None),
+                                  self.pid, self.exited and not self.killed))
         if not self.exited and self.killed:
             self.exited, self.code = True, -15
         return self.code if self.exited else None
@@ -128,8 +132,10 @@ class FakeRM(object):
 
 
 class WatchQueue(object):
-    def __init__(self): self.items = []
-    def put(self, x): self.items.append(x)
+    def __init__(self): self.items, self.seen = [], []
+    def put(self, x):
+        self.items.append(x)
+        self.seen.append(x)
     def get_nowait(self):
         if not self.items: raise queue.Empty()
         return self.items.pop(0)
